@@ -79,8 +79,12 @@ def body(ctx):
                     m = bytes(rng.getrandbits(1) * rng.choice((1, 1, 255, 2)) for _ in range(n)).ljust(64, b"\0").hex()
                     plan.append("st bool_store_unaligned %s %d %s - - %s" % (t, off, m, wrow(w)))
                     plan.append("ld bool_load_unaligned %s %d %s - - %s" % (t, off, bytes((b != 0) for b in bytes.fromhex(m)).hex(), wrow(w)))
-                for off in (0, PAGE - max(n, w) if False else 0, ):
-                    pass
+                # ... and their aligned spellings (own kernels on avx512bw: a byte compare into a mask register) at register-aligned addresses,
+                # the last one ending flush with the page; found missing by tools/coverage.py (DESIGN 0.9)
+                for off in sorted({0, w, 2048, PAGE - w}):
+                    m = bytes(rng.getrandbits(1) * rng.choice((1, 1, 255, 2)) for _ in range(n)).ljust(64, b"\0").hex()
+                    plan.append("st bool_store_aligned %s %d %s - - %s" % (t, off, m, wrow(w)))
+                    plan.append("ld bool_load_aligned %s %d %s - - %s" % (t, off, bytes((b != 0) for b in bytes.fromhex(m)).hex(), wrow(w)))
                 # gather / scatter: table of n elements flush against either page edge
                 for off in (0, PAGE - w, 1024 + nb):
                     if off % nb:
